@@ -76,6 +76,7 @@ func checkC08(c *Ctx) {
 	// the router is built from the flattened document (path-item $refs resolved): loads.Embedded(orig, flat)
 	checkEmbeddedOrder(c, "C08.R1.routed-document", ev, gen)
 
+	checkRouteClash(c, gen)
 	checkOperationIdentity(c, gen)
 	checkOperationDedup(c, gen)
 	checkCollisionDetection(c, gen)
@@ -419,4 +420,60 @@ func detectsCollision(info *types.Info, fd *ast.FuncDecl) bool {
 		return true
 	})
 	return lookup && store && errRet
+}
+
+// checkRouteClash: the builder template registers handlers under (METHOD, path.Clean(path));
+// the Go side must refuse, for a server, two operations that share that key.
+func checkRouteClash(c *Ctx, gen *packages.Package) {
+	rule := "C08.R1.route-clash"
+	c.Rule(rule, "planning a server fails when two operations share the registration key of the handler map (method + cleaned path)", 1)
+	fd := load.FuncDecl(gen, "appGenerator.makeCodegenApp")
+	if fd == nil {
+		c.Anchor(rule, "generator.appGenerator.makeCodegenApp", "not found")
+		return
+	}
+	info := gen.TypesInfo
+	found, pos := false, fd.Pos()
+	ast.Inspect(fd.Body, func(n ast.Node) bool {
+		rs, ok := n.(*ast.RangeStmt)
+		if !ok || !goan.IsIdent(rs.X, "genOps") {
+			return true
+		}
+		lookup, errRet, cleaned, method := false, false, false, false
+		ast.Inspect(rs.Body, func(m ast.Node) bool {
+			switch x := m.(type) {
+			case *ast.AssignStmt:
+				if len(x.Lhs) == 2 && len(x.Rhs) == 1 {
+					if ix, ok := x.Rhs[0].(*ast.IndexExpr); ok {
+						if _, isMap := info.TypeOf(ix.X).Underlying().(*types.Map); isMap {
+							lookup = true
+						}
+					}
+				}
+			case *ast.CallExpr:
+				if fn := goan.Callee(info, x); fn != nil && goan.CalleeName(fn) == "path.Clean" && len(x.Args) == 1 && goan.LastSel(x.Args[0]) == "Path" {
+					cleaned = true
+				}
+			case *ast.SelectorExpr:
+				if x.Sel.Name == "Method" {
+					method = true
+				}
+			case *ast.ReturnStmt:
+				if len(x.Results) == 2 {
+					if call, ok := x.Results[1].(*ast.CallExpr); ok {
+						if fn := goan.Callee(info, call); fn != nil && goan.CalleeName(fn) == "fmt.Errorf" {
+							errRet = true
+						}
+					}
+				}
+			}
+			return true
+		})
+		if lookup && errRet && cleaned && method {
+			found, pos = true, rs.Pos()
+		}
+		return true
+	})
+	c.Check(found, rule, "generator.appGenerator.makeCodegenApp › clash of (method, path.Clean(path)) is an error", c.posOf(gen, pos), "lookup in a map keyed by method and cleaned path, error on a hit",
+		"nothing refuses two operations that share the handler-map key (method + cleaned path, e.g. GET /items and GET /items/): the handler registered last serves both and one operation is unreachable")
 }
